@@ -342,6 +342,36 @@ func propC18(a *Analysis, r *Registry) {
 		if fn == nil {
 			return
 		}
+		// the traversal is started: the enclosing function calls the closure on its root, on every path
+		if parent := a.W.Fn(strings.TrimSuffix(fname, "$1")); parent != nil && strings.HasSuffix(fname, "$1") {
+			b.guard("C-order", fname+"/started-at-root", func() {
+				pfc := X.FCFor(parent)
+				var root *RF
+				for i, p := range parent.Params {
+					if p.Name() == "root" {
+						root = X.ParamRF(parent, i)
+					}
+				}
+				started := false
+				pfc.Ctx.Instrs(func(in ssa.Instruction) {
+					c, ok := in.(*ssa.Call)
+					if !ok || c.Call.IsInvoke() || c.Call.StaticCallee() != nil || len(c.Call.Args) != 1 {
+						return
+					}
+					if _, isB := c.Call.Value.(*ssa.Builtin); isB {
+						return
+					}
+					if root != nil && pfc.Val(c.Call.Args[0]).Equal(root) && pfc.ReachCond(c.Block()).Equal(S.True()) {
+						started = true
+					}
+				})
+				if started {
+					r.OK("C-order", fname+"/started-at-root", b.pos(parent), "the traversal closure is called on root, unconditionally")
+				} else {
+					r.Fail("C-order", fname+"/started-at-root", b.pos(parent), "the enclosing function does not call the traversal closure on its root on every path: nothing is visited")
+				}
+			})
+		}
 		b.guard("C-order", fname, func() {
 			fc := X.FCFor(fn)
 			mark := fc.TheCallTo("graph/graphalg.(*NodeMarks).Mark")
